@@ -85,7 +85,9 @@ def step (s : St) (ts : List String) : St × Verdict × List String :=
     -- a request the library wrote must parse back to an equal request
     let spec := match s.lastWritten with | some r => some s!"ok {reqText r}" | none => none
     if spec.isSome ∧ spec ≠ some impl then ({}, .specfail s!"written request does not parse back: expected {spec.getD ""}", notes)
-    else if model ≠ impl then ({}, .mismatch s!"model={model}", notes)
+    -- the parse the property mandates is the model's (C14: identifiers exact, parameter order and unknown
+    -- keys irrelevant, well-formed strings split exactly): a different answer is a failing input
+    else if model ≠ impl then ({}, .specfail s!"mandated parse={model}", notes)
     else ({}, .ok, notes)
   | "hs" :: rest =>
     match out with
